@@ -78,6 +78,10 @@ macro_rules! alloc_step {
 alloc_step!(c23_q_alloc_u32x4_u32x6_as_f32, u32, 4, u32, 6, f32, 8, 8);
 // fitting buffer pooled *before* a too-small one of the same layout
 alloc_step!(c23_q_alloc_u32x6_u32x4_as_f32, u32, 6, u32, 4, f32, 8, 8);
+// equal capacities: the first pooled buffer wins the tie
+alloc_step!(c23_q_alloc_u32x4_u32x4_as_f32, u32, 4, u32, 4, f32, 8, 6);
+// mixed element sizes where byte order and element-count order disagree
+alloc_step!(c23_q_alloc_u8x16_u32x5_as_f32, u8, 16, u32, 5, f32, 8, 10);
 // different size classes: only the u64 buffer can serve an i64 request
 alloc_step!(c23_q_alloc_u32x4_u64x2_as_i64, u32, 4, u64, 2, i64, 8, 4);
 // same size, larger alignment requested: [u16;2] (align 2) must not serve u32 (align 4)
